@@ -1,17 +1,16 @@
 #!/bin/bash
 # False-alarm test: apply each behaviour-preserving rewrite of /repo (seeded/rewrites/R*.diff), run every
-# quick check, revert.  Every check must pass on every rewrite.
+# quick check (4 at a time), revert.  Every check must exit 0 on every rewrite.
 cd /verif
 out=${1:-/verif/build/rewrites.log}
 : > $out
-for d in seeded/rewrites/R*.diff; do
+./check setup >/dev/null 2>&1
+for d in ${REWRITES:-seeded/rewrites/R*.diff}; do
   n=$(basename $d .diff)
   git -C /repo checkout -q -- . && git -C /repo apply /verif/$d || { echo "$n apply-failed" >> $out; continue; }
-  for p in C01 C02 C03 C04 C05 C06 C07 C08 C09 C10 C11 C12 C13 C14 C15 C16 C17 C18 C19 C20; do
-    r=$(./check $p --tier quick 2>&1 | grep -c "^VIOLATION")
-    rc=${PIPESTATUS[0]}
-    echo "$n $p violations=$r" >> $out
-  done
+  ./check C01 >/dev/null 2>&1   # builds the harness for this tree once
+  printf "%s\n" C01 C02 C03 C04 C05 C06 C07 C08 C09 C10 C11 C12 C13 C14 C15 C16 C17 C18 C19 C20 | \
+    xargs -P 4 -I{} sh -c 'o=$(./check {} --tier quick 2>&1); rc=$?; echo "'$n' {} exit=$rc violations=$(echo "$o" | grep -c "^VIOLATION")"' >> $out
   git -C /repo checkout -q -- .
 done
 git -C /repo status --short >> $out
